@@ -340,12 +340,15 @@ def build(S):
         S.contract("geometry2[nonorthogonal]", FN_GEOM2, run_geometry2(False), shape="1x1")
         S.contract("calcBeta", FN_BETA, run_calcBeta, shape="nx=1, ny=1 (xlow 2x1, corners 2x2)")
         S.contract("calcZShift.integrand_func", FN_ZSHIFT, run_integrand(S), shape="scalar")
-        from . import C05
+        from . import C03, C05
 
-        C05.add_hy(S)  # hy (hence g22, g33, g23, J, g_22, g_23) at every location, joins included
+        C05.add_hy(S)
+        # dx (the "per unit dx" of the displacement relation) at all four locations, radial joins included
+        S.under_contract(C03.FN_G1)
+        S.contract("geometry1[x-neighbours]", C03.FN_G1, lambda c: C03.run_geometry1(c, True), expected_exceptions=(ValueError,), raises_ok=C03.g1_raises_ok, shape="nx=1, ny=3, inner+outer neighbour", max_paths=200)  # hy (hence g22, g33, g23, J, g_22, g_23) at every location, joins included
 
 
 def post(S):
     from bounded import gridrun
 
-    gridrun.run(S, ["metric_vs_displacements", "hy_ylow_vs_displacements", "g23_vs_zshift", "zshift_halfcell"], FN_METRIC, name="measured displacements / stored zShift vs metric components on generated grids")
+    gridrun.run(S, ["metric_vs_displacements", "g11_xlow_vs_displacements", "hy_ylow_vs_displacements", "g23_vs_zshift", "zshift_halfcell"], FN_METRIC, name="measured displacements / stored zShift vs metric components on generated grids")
